@@ -230,4 +230,28 @@ def patchUser (d : Desc) (uv : UserVars) (nStages : Nat) : Desc :=
   { d with variables := d.platforms.map (fun P =>
       (P, { global := (platVars d P).global, stages := patchStages uv (platVars d P).stages nStages })) }
 
+/-! ### several variable files (conf.py `layer_many_variable_files`)
+
+`agg = {}; for path in variable_files: FlowIR.override_object(agg, read_user_variables(path))`: the
+files are layered from the first to the last with the recursive `override_object`, i.e. scope by scope
+(`global`, `stages[i]` for every `i`) and inside a scope name by name. -/
+
+/-- `override_object` on two `name: value` collections (the dictionary-on-dictionary branch of `override`) -/
+def mergeVars (a b : Fields) : Fields :=
+  overrideFields a b ++ b.filter (fun kv => (get a kv.1).isNone)
+
+/-- a stage section that both dictionaries hold is merged, one that only the old one holds is kept -/
+def mergeOpt (f : Fields) : Option Fields → Fields
+  | some g => mergeVars f g
+  | none => f
+
+/-- `override_object` on two `stage index: {name: value}` dictionaries -/
+def mergeStages (a b : List (Nat × Fields)) : List (Nat × Fields) :=
+  a.map (fun e => (e.1, mergeOpt e.2 (lookupN b e.1))) ++ b.filter (fun e => (lookupN a e.1).isNone)
+
+def mergeUser (a b : UserVars) : UserVars := ⟨mergeVars a.global b.global, mergeStages a.stages b.stages⟩
+
+/-- `FlowIRExperimentConfiguration.layer_many_variable_files(variable_files)` -/
+def layerUserFiles (fs : List UserVars) : UserVars := fs.foldl mergeUser ⟨[], []⟩
+
 end St4sd.Tree
